@@ -13,7 +13,8 @@ CORR_CHECK = "check_case"
 CORR_SHOW = "show_case"
 GEN_FILES = ["gen/C20Table.v"]
 SHARD = 300
-RULE = ("a third of the interval/json/seq cases render ONE term object 2-4 times in a row under different contexts; leaf "
+RULE = ("explicit-keyword contexts omit every subset of quote_char/secondary_quote_char/dialect and may sit in a bare "
+        "comparison; a third of the interval/json/seq cases render ONE term object 2-4 times in a row under different contexts; leaf "
         "elements of Tuple/Array count their renderings and are also rendered with a parameter collector; "
         "interval/json/seq terms are rendered under a context: own keyword arguments, or one of the ten query classes x "
         "{direct get_sql with the class constants, select list, WHERE operand, function argument, INSERT value}; "
@@ -78,8 +79,18 @@ def class_kwargs(cls):
                 alias_quote_char=b.ALIAS_QUOTE_CHAR, dialect=b.dialect)
 
 
-def case_kwargs(case):
-    """(kwargs for term.get_sql, dialect name) of a case."""
+def case_kwargs(case, raw=False):
+    """(keyword arguments the term is rendered with, dialect name) of a case.  In a bare comparison (pos "cmp") the
+    caller's keyword arguments go to BasicCriterion.get_sql(quote_char='"', ...), whose documented default for an
+    omitted quote_char is what the operands receive; raw=True gives the arguments of the outer call itself."""
+    kw, dname = _case_kwargs(case)
+    if not raw and case.get("cls") is None and case.get("pos") == "cmp":
+        kw = dict(kw)
+        kw.setdefault("quote_char", '"')
+    return kw, dname
+
+
+def _case_kwargs(case):
     if case.get("cls") is not None:
         kw = class_kwargs(query_classes()[case["cls"]])
         return kw, (None if kw["dialect"] is None else kw["dialect"].name)
@@ -121,7 +132,7 @@ def render_in_context(term, case):
     term's part of a real statement of the query class (frame taken from the same statement
     rendered with a placeholder term)."""
     pos = case.get("pos") or "direct"
-    kw, _ = case_kwargs(case)
+    kw, _ = case_kwargs(case, raw=True)
     from pypika.terms import PseudoColumn
     if pos == "cmp":        # the term as the right operand of a comparison that is rendered on its own
         from pypika import Field
@@ -767,9 +778,9 @@ def sbuild_counted(d, counters):
         orig = t.get_sql
 
         def counted(*a, **k):
-            # Term.__hash__ / __eq__ call get_sql(with_alias=True) without a context (sets of fields when a
+            # Term.__hash__ calls get_sql(with_alias=True, with_namespace=True) without a context (sets of fields when a
             # statement validates its tables): every other call is a rendering (elements of a Tuple/Array never receive with_alias)
-            if not (k.get("with_alias") is True and len(k) == 1):
+            if not (k.get("with_alias") is True and set(k) <= {"with_alias", "with_namespace"}):
                 slot[0] += 1
             return orig(*a, **k)
         t.get_sql = counted
